@@ -340,8 +340,64 @@ def explore(case):
   return info
 
 
-SUBS = {'explore': explore}
-TIMEOUTS = {'explore': 3000}
+def resumed_run(arg):
+  """Runs the experiment in THIS interpreter: from scratch if arg['from_state'] is None, else from the given directory
+  state (the files another interpreter left behind when it died). Returns the final state digest and final.tsv."""
+  import base64
+  cfg = arg['cfg']
+  base = tempfile.mkdtemp(prefix='c09o_')
+  workdir = os.path.join(base, 'root')
+  try:
+    h = Harness(cfg, workdir, arg.get('algo', 'toy'))
+    state = tuple((n, base64.b64decode(d)) for n, d in arg['from_state']) if arg.get('from_state') is not None else ()
+    fault.restore(workdir, state)
+    res, _ = h.run(tuple(arg['fault']) if arg.get('fault') else None)
+    files = dict(fault.snapshot(workdir))
+    out = {'status': res[0], 'digest': h.state_digest(res[1]) if res[0] == 'ok' else None,
+           'tsv': files.get('final.tsv', b'').decode() if res[0] == 'ok' else None, 'ref': h.ref_final,
+           'files': [[n, base64.b64encode(d).decode()] for n, d in sorted(files.items())]}
+    return out
+  finally:
+    shutil.rmtree(base, ignore_errors=True)
+
+
+def other_process(case):
+  """A restarted experiment runs in ANOTHER interpreter process (other str/bytes hash salt): the run is crashed at
+  every step of the training loop in a child interpreter, the files it leaves are handed to a second child with another
+  salt that re-runs the same call; final state and final evaluation output must be those of the uninterrupted run."""
+  from mc import child
+  cfg, algo = case['cfg'], case.get('algo', 'toy')
+  here = resumed_run({'cfg': cfg, 'algo': algo, 'from_state': None})
+  require(here['status'] == 'ok' and here['digest'] == here['ref'], 'uninterrupted run differs from the round-by-round reference',
+          here['ref'], here['digest'], case=case)
+  evals = 0
+  h1, h2 = case['hashseeds']
+  # crash points: before every 'step' effect (sampling / algorithm step) of the fault-free run
+  base = tempfile.mkdtemp(prefix='c09p_')
+  try:
+    hh = Harness(cfg, os.path.join(base, 'root'), algo)
+    fault.restore(hh.workdir, ())
+    _, trace = hh.run(None)
+  finally:
+    shutil.rmtree(base, ignore_errors=True)
+  points = [e['i'] for e in trace if e['kind'] == 'step' and e['name'] == 'sampler.sample']
+  if 'point' in case:   # one crash point per case (the cases of a configuration run in parallel)
+    points = points[case['point']:case['point'] + 1]
+  for i in points:
+    nc = dict(case, crash_before_effect=i)
+    first = child.call('mc.checks.c09_experiment_resume', 'resumed_run', {'cfg': cfg, 'algo': algo, 'from_state': None,
+                                                                        'fault': ['crash', i]}, h1)
+    second = child.call('mc.checks.c09_experiment_resume', 'resumed_run', {'cfg': cfg, 'algo': algo, 'from_state': first['files']}, h2)
+    require(second['status'] == 'ok' and second['digest'] == here['digest'] and second['tsv'] == here['tsv'],
+            'a run that died in one interpreter (PYTHONHASHSEED=%s) and was re-run in another (PYTHONHASHSEED=%s) ends in another '
+            'final state / final evaluation than the uninterrupted run' % (h1, h2), [here['digest'], here['tsv']],
+            [second['digest'], second['tsv']], case=nc)
+    evals += 1
+  return {'evals': evals, 'nontrivial': True, 'outcome': [cfg, case['hashseeds']]}
+
+
+SUBS = {'explore': explore, 'other_process': other_process}
+TIMEOUTS = {'explore': 3000, 'other_process': 2400}
 
 
 def configs(th):
@@ -382,3 +438,5 @@ def plan(ctx):
   cs += [{'cfg': {'num_rounds': nr, 'ckpt': 1, 'keep': 1, 'eval': ev, 'shared_eval': True}, 'algo': 'fedavg', 'all_prefixes_depth': -1}
          for nr, ev in (((4, 3), (3, 2), (4, 2)) if th else ((3, 2),))]
   ctx.pmap('explore', cs, chunk=1)
+  ctx.pmap('other_process', [{'cfg': {'num_rounds': 3, 'ckpt': 1, 'keep': 1, 'eval': 0}, 'hashseeds': hs, 'point': k}
+                             for hs in (([1, 2], [2, 3], [12345, 1]) if th else ([1, 2],)) for k in range(3)], chunk=1)
